@@ -139,7 +139,7 @@ def close6(a, b):
 
 class C13(Check):
     pid = "C13"
-    lean_modules = ["MTProps.C13", "MTProps.CodeCli", "MTProps.CodeWriters", "MTProps.CodeReaders"]
+    lean_modules = ["MTProps.C13", "MTProps.CodeCli", "MTProps.CodeWriters", "MTProps.CodeReaders", "MTProps.CodeReaderAff"]
 
     def body(self):
         rng = self.rng
@@ -520,7 +520,7 @@ class C13(Check):
 
 class C14(Check):
     pid = "C14"
-    lean_modules = ["MTProps.C14", "MTProps.CodeRun", "MTProps.CodeInit", "MTProps.CodeReaders"]
+    lean_modules = ["MTProps.C14", "MTProps.CodeRun", "MTProps.CodeInit", "MTProps.CodeReaderAff"]
 
     def body(self):
         rng = self.rng
@@ -770,7 +770,7 @@ def mutate(rng, text):
 
 class C16(Check):
     pid = "C16"
-    lean_modules = ["MTProps.C16", "MTProps.CodeReaders"]
+    lean_modules = ["MTProps.C16", "MTProps.CodeReaders", "MTProps.CodeReaderAff"]
 
     def on_crash(self, op, cid, line, err, rc):
         # for C16 the crash itself is the failing input
